@@ -1,14 +1,70 @@
 """C14 — see harness/shellprops.py (shared exploration of the connection-level properties)
 and harness/shellrun.py (oracle_c14)."""
+import ari
+import fixture
 import shellprops
+import sx
+import wire
+from sx import sym
 
 PID = 'C14'
 TRUSTED = shellprops.TRUSTED
 ASSUMPTIONS = shellprops.ASSUMPTIONS
 
 
+def content(ctx, res):
+    """credential configurations through the real servers: the first message queued by start() vs
+    Model.Writers.write_credentials inside Envelope.reply_message "1"; oracle: decodes to the configuration"""
+    g = wire.Gen(ctx.rng)
+    n = 150 if ctx.tier == 'quick' else 6000
+    cases = []
+    for i in range(n):
+        def one(k):
+            return [None, '', g.text(allow_none=False, tagged=False), g.text(allow_none=False)][k]
+        u, p = one(ctx.rng.randrange(4) if i >= 16 else i % 4), one(ctx.rng.randrange(4) if i >= 16 else (i // 4) % 4)
+        kind = 'meta' if i % 2 else 'data'
+        with fixture.patched() as env:
+            if kind == 'meta':
+                srv = fixture.start_meta(env, fixture.metadata_adapter(), user=u, password=p, handler=fixture.make_handler())
+            else:
+                srv = fixture.start_data(env, fixture.data_adapter(), user=u, password=p, handler=fixture.make_handler())
+            msgs = fixture.drain(srv)
+        cases.append((kind, u, p, msgs))
+    outs = ctx.model([[sym('write_credentials'), ari.pyval(u), ari.pyval(p)] for _, u, p, _ in cases])
+    envs = ctx.model([[sym('envelope_reply'), b'1', o[1] if (isinstance(o, list) and o and o[0] == b'ok') else b''] for o in outs])
+    for (kind, u, p, msgs), o, e in zip(cases, outs, envs):
+        res.evaluations += 1
+        res.count('credentials:%s:user=%s:password=%s' % (kind, 'none' if u is None else ('empty' if u == '' else 'text'),
+                                                          'none' if p is None else ('empty' if p == '' else 'text')))
+        case = {'kind': kind, 'user': u, 'password': p, 'queued': msgs[:2]}
+        bad = None
+        if len(msgs) != 1 or not isinstance(msgs[0], str):
+            bad = 'start() queued %r' % (msgs,)
+        else:
+            try:
+                rid, body = msgs[0].split('|', 1)
+                m, ps = ari.params(body)
+                want = ([('user', u)] if u is not None else []) + ([('password', p)] if p is not None else [])
+                want += [('enableClosePacket', 'true'), ('SDK', 'Python Adapter SDK')]
+                if rid != '1' or m != 'RAC' or ps != want:
+                    bad = 'credentials message %r carries id %r, %r; expected id 1, %r' % (msgs[0][:200], rid, ps, want)
+            except (ari.Bad, ValueError) as ex:
+                bad = 'credentials message %r is not well-formed: %r' % (msgs[0][:200], ex)
+        if bad:
+            res.oracle_violations.append({'case': case, 'detail': bad, 'key': {'kind': 'rac_content'}})
+        impl = msgs[0].encode('utf-8', 'surrogatepass') if (len(msgs) == 1 and isinstance(msgs[0], str)) else None
+        if not (isinstance(e, list) and len(e) == 2 and e[0] == impl):
+            res.disagreements.append({'case': case, 'model': sx.dumps(e)[:400], 'impl': repr(impl)[:400],
+                                      'relation': 'Envelope.reply_message "1" (Writers.write_credentials user password) = first message queued by Server.start'})
+        else:
+            res.nontrivial.add(msgs[0])
+    return n
+
+
 def run(ctx, res):
     shellprops.explore(ctx, res, PID)
+    n = content(ctx, res)
+    res.rule += '; content: %d credential configurations (user / password each None, empty, or a C05 text) through both real servers vs the model writer' % n
 
 
 def search(ctx, res):
